@@ -2,6 +2,7 @@ package schema
 
 import (
 	"fmt"
+	"sort"
 
 	"github.com/jsightapi/jsight-schema-go-library/bytes"
 	"github.com/jsightapi/jsight-schema-go-library/errors"
@@ -22,6 +23,48 @@ func New() Schema {
 
 func (s Schema) TypesList() map[string]Type {
 	return s.types
+}
+
+// TypeNames returns the names of all types in a fixed order: the user types by
+// name, then the unnamed types by the place of their root node in the source
+// text. A caller that stops at the first problem it meets reports the same
+// problem on every run (the order of a map iteration changes from run to run).
+func (s Schema) TypeNames() []string {
+	names := make([]string, 0, len(s.types))
+	for n := range s.types {
+		names = append(names, n)
+	}
+	place := func(n string) (string, bytes.Index) {
+		sc := s.types[n].schema
+		if sc == nil || sc.rootNode == nil {
+			return "", 0
+		}
+		lex := sc.rootNode.BasisLexEventOfSchemaForNode()
+		if lex.File() == nil {
+			return "", 0
+		}
+		return lex.File().Name(), lex.Begin()
+	}
+	sort.Slice(names, func(i, j int) bool {
+		a, b := names[i], names[j]
+		ua, ub := bytes.Bytes(a).IsUserTypeName(), bytes.Bytes(b).IsUserTypeName()
+		if ua != ub {
+			return ua
+		}
+		if ua {
+			return a < b
+		}
+		fa, pa := place(a)
+		fb, pb := place(b)
+		if fa != fb {
+			return fa < fb
+		}
+		if pa != pb {
+			return pa < pb
+		}
+		return a < b
+	})
+	return names
 }
 
 // MustType returns *Schema or panic if not found.
